@@ -11,6 +11,7 @@ From RV Require Import Model.Base Gen.SvgTables Gen.Units Model.CascadeBase Gen.
 From RV Require Import Gen.ReadSites Model.CascadeSites Proofs.CascadeSites.
 From RV Require Import Model.CascadeSel Proofs.CascadeSel.
 From Coq Require Import Sorted.
+From RV Require Import Gen.FontWeight Model.CascadeFont Proofs.CascadeFont.
 
 (* What `attribute(a)` sees after parse_svg_element = a fold of the two-rule machine `step` over the
    declarations that mention `a` (attributes first-wins, then CSS in rule order, then style). *)
@@ -268,6 +269,13 @@ Theorem C09_inherited_read_through_ancestors : forall s, In s read_sites -> valu
 Proof. exact sites_lookup. Qed.
 Print Assumptions C09_inherited_read_through_ancestors.
 
+(* the converse: a property the specification does not inherit is read from the element itself, never through find_attribute or
+   an ancestor walk (text baseline properties excepted: Model.CascadeSites.text_baseline_prop) *)
+Theorem C09_noninherited_read_from_element : forall s, In s read_sites -> value_site s = true ->
+  spec_noninherited (rs_attr s) = true -> text_baseline_prop (rs_attr s) = false -> rs_walk s = "none"%string.
+Proof. exact sites_own. Qed.
+Print Assumptions C09_noninherited_read_from_element.
+
 (* equivalent unit: every <length> / <length list> read of a presentation property is converted by units::convert_length
    (Gen.Units.convert_abs, C09_unit_equiv) - directly through a helper, by a helper call in the same function, or, for
    font-size, by resolve_font_size's own table (C09_unit_font_size) *)
@@ -357,6 +365,25 @@ Qed.
 Print Assumptions C09_selector_forms.
 
 
+(* ---- font-weight over the ancestor chain (Gen/FontWeight.v: the arms of text.rs::resolve_font_weight transcribed from the
+   source).  Equivalent number notation: normal = 400, bold = 700 - also UNDER descendants that say bolder / lighter ---- *)
+Theorem C09_font_weight_notation : forall c c',
+  Forall2 (fun v v' => v = v' \/ same_weight v v') c c' -> fw_resolve c = fw_resolve c'.
+Proof. exact fw_notation. Qed.
+Print Assumptions C09_font_weight_notation.
+
+Theorem C09_font_weight_keyword_number : forall c1 c2,
+  fw_resolve (c1 ++ "normal"%string :: c2) = fw_resolve (c1 ++ "400"%string :: c2) /\
+  fw_resolve (c1 ++ "bold"%string :: c2) = fw_resolve (c1 ++ "700"%string :: c2).
+Proof. intros. split; apply fw_replace; [exact normal_400 | exact bold_700]. Qed.
+Print Assumptions C09_font_weight_keyword_number.
+
+(* the transcribed literal arms are the specification's table; the weight never leaves [100, 900] (usize arithmetic is safe) *)
+Theorem C09_font_weight_table : (forall v, fw_literal v = spec_number v) /\ (forall c, (100 <= fw_resolve c <= 900)%Z).
+Proof. split; [exact fw_literal_spec | exact fw_range]. Qed.
+Print Assumptions C09_font_weight_table.
+
+
 (* ---- non-vacuity -------------------------------------------------------------------------------- *)
 Local Open Scope string_scope.
 Definition ex_parent : list attr := [mk A_Fill "green" true; mk A_Opacity "0.5" false].
@@ -407,7 +434,9 @@ Example C09_nv_read_sites :
    forallb (site_ok_in good) good = true) /\
   site_lookup_ok (mk_site "marker.rs" "is_valid" A_MarkerMid "attribute" "SvgNode" "none") = false /\
   site_lookup_ok (mk_site "marker.rs" "is_valid" A_MarkerMid "find_attribute" "SvgNode" "find_attribute") = true /\
-  existsb length_site read_sites = true.
+  existsb length_site read_sites = true /\
+  site_own_ok (mk_site "marker.rs" "resolve" A_Overflow "find_attribute" "&str" "find_attribute") = false /\
+  existsb (fun s => AId_eqb (rs_attr s) A_Overflow && value_site s) read_sites = true.
 Proof.
   split; [exact family_all_read|]. destruct flood_readers as [A [_ B]]. repeat split; try assumption; vm_compute; reflexivity.
 Qed.
@@ -437,4 +466,10 @@ Example C09_nv_rules :
   op_matches (OpStartsWith "en") "en-US" = true /\ op_matches (OpStartsWith "en") "enx" = false /\
   (specificity sel_id > specificity sel_adj)%N /\ (specificity sel_adj > specificity sel_class)%N /\
   pseudo_class_matches pos_r1 PFirstChild = true /\ pseudo_class_matches pos_r2 PFirstChild = false.
+Proof. vm_compute. repeat split. Qed.
+(* font-weight: the relative keywords really depend on the chain, and the big step is taken over `normal` and `400` alike *)
+Example C09_nv_font_weight :
+  fw_resolve ["normal"; "bolder"]%string = 700%Z /\ fw_resolve ["400"; "bolder"]%string = 700%Z /\
+  fw_resolve [""; "400"; ""; "lighter"]%string = 200%Z /\ fw_resolve ["bold"; "bolder"; "bolder"; "bolder"]%string = 900%Z /\
+  fw_resolve ["500"; "bolder"]%string = 600%Z /\ same_weight_b "normal" "400" = true /\ same_weight_b "bold" "400" = false.
 Proof. vm_compute. repeat split. Qed.
